@@ -19,8 +19,8 @@ SAFETY = ["StreamWellFormed", "ReceiverAlignment", "FollowupSameConn", "EmitNeve
           "AlignmentLostOnlyAfterFault", "NoRecordPanic", "QueueOrdered", "DropsOrdered"]
 
 
-def mc_cfg(ne, nemits, buf, faults, fup, boom=(), invariants=SAFETY, spec="MCSpec", props=(), view=True):
-    return vf.cfg_text(constants={"BufSize": buf, "MaxEpoch": 3, "NEmitters": ne, "NEmits": nemits,
+def mc_cfg(ne, nemits, buf, faults, fup, boom=(), invariants=SAFETY, spec="MCSpec", props=(), view=True, maxepoch=3):
+    return vf.cfg_text(constants={"BufSize": buf, "MaxEpoch": maxepoch, "NEmitters": ne, "NEmits": nemits,
                                   "FupAt": "{%s}" % ",".join(map(str, fup)), "BoomAt": "{%s}" % ",".join(map(str, boom)),
                                   "MaxFaults": faults},
                        spec=spec, invariants=invariants, properties=props, view="MCView" if view else None)
@@ -258,18 +258,18 @@ def run(ctx):
     if quick:
         mcs.append(("2x2 buf1 faults1 fup", mc_cfg(2, 2, 1, 1, [12]), 3, False))
     else:
-        mcs += [("2x2 buf1 faults2 fup", mc_cfg(2, 2, 1, 2, [12]), 4, True),
-                ("2x2 buf1 faults1 ENABLED", mc_cfg(2, 2, 1, 1, [12], invariants=["EmitNeverWaitsENABLED"]), 2, False),
-                ("2x2 buf2 faults1 boom", mc_cfg(2, 2, 2, 1, [22], boom=[11]), 2, True),
-                ("2x3 buf1 faults1 fup", mc_cfg(2, 3, 1, 1, [12, 23]), 4, True),
-                ("2x3 buf2 faults1 fup", mc_cfg(2, 3, 2, 1, [13]), 4, True),
-                ("3x2 buf1 faults1 fup", mc_cfg(3, 2, 1, 1, [12]), 4, True),
-                ("3x2 buf2 faults1 fup", mc_cfg(3, 2, 2, 1, [32]), 4, True),
+        mcs += [("2x2 buf1 faults2 fup", mc_cfg(2, 2, 1, 2, [12]), 3, True),
+                ("2x2 buf1 faults0 ENABLED", mc_cfg(2, 2, 1, 0, [12], invariants=["EmitNeverWaitsENABLED"]), 1, False),
+                ("2x2 buf2 faults1 boom maxepoch2", mc_cfg(2, 2, 2, 1, [22], boom=[11], maxepoch=2), 2, True),
+                ("2x3 buf1 faults1 fup", mc_cfg(2, 3, 1, 1, [12, 23]), 3, True),
+                ("2x3 buf2 faults1 fup", mc_cfg(2, 3, 2, 1, [13]), 3, True),
+                ("3x2 buf1 faults1 fup", mc_cfg(3, 2, 1, 1, [12]), 5, True),
+                ("3x2 buf2 faults0 fup", mc_cfg(3, 2, 2, 0, [32]), 2, True),
                 ("liveness 2x1 buf1 faults1", mc_cfg(2, 1, 1, 1, [], invariants=[], spec="LiveSpec",
                                                     props=["CloseTerminates", "ClosedIsFinal"], view=False), 2, False)]
     if os.environ.get("C28_SKIP_MC"):      # development knob (seed sweeps); never set by the registered commands
         mcs = []
-    pool = cf.ThreadPoolExecutor(max_workers=3 if quick else 4)
+    pool = cf.ThreadPoolExecutor(max_workers=3 if quick else 8)
     mcf = [pool.submit(vf.mc, ctx, "MC_Telemetry", cfg, workers=w, timeout=2400, heap="6g", coverage=cov, label="MC_Telemetry/" + lab)
            for lab, cfg, w, cov in mcs]
 
@@ -329,13 +329,23 @@ def run(ctx):
         except vf.Infra as ex:
             ctx.cov["race_detector"] = "not run: %s" % str(ex)[:200]
 
+    # per-action coverage: TLC names the wrapper actions of MC_Telemetry by source line ("NF line 40 ...")
+    src = open(os.path.join(vf.SPEC, "infra", "MC_Telemetry.tla")).read().splitlines()
+    acts = {}
     for f in mcf:
-        f.result()
+        res = f.result()
+        for m in re.finditer(r"<(?:NF|FA) line (\d+), col \d+ to line \d+, col \d+ of module MC_Telemetry>: (\d+):(\d+)", res.out):
+            mm = re.match(r"A_(\w+) ==", src[int(m.group(1)) - 1])
+            if mm:
+                acts[mm.group(1)] = acts.get(mm.group(1), 0) + int(m.group(3))
     pool.shutdown()
+    if acts:
+        ctx.cov["actions"] = acts
     if not quick and mcs:
-        need = ["EmitEffect", "WriterFlush", "WriterWriteDropped", "WriterWriteEvent", "WriterPeek", "WriterDequeue",
-                "WriterClosingPeek", "BumpEpoch", "ResetAndDrain", "WriterPanic", "ConnDegrade"]
-        missing = [a for a in need if ctx.cov["actions"].get(a, 0) == 0]
+        need = ["EmitBody", "EmitLockedRejectB", "WriterFlush", "WriterWriteDropped", "WriterWriteEvent", "WriterDequeue",
+                "WriterClosingDequeue", "WriterClosingPeek", "WriterSeeClose", "WriterPeerClosed", "WriterPanic",
+                "BumpEpoch", "ResetAndDrain", "ConnDegrade", "WriterWriteFail", "WriteNodeInfoFail", "DialFail", "PeerClose", "CloseReturn"]
+        missing = [a for a in need if acts.get(a, 0) == 0]
         if missing:
             raise vf.Infra("vacuity guard: model actions never taken in any MC run: %s" % missing)
 
